@@ -10,7 +10,10 @@ LEVEL = "exploration"
 CHUNK = 2
 CASE_TIMEOUT = 900
 REQUIRED_COUNTERS = ["returned_mappings_validated"]
-RULE = ("specs of the small-spec family with tight memories, keep / may_keep set expressions (incl. ~MainMemory, "
+RULE = ("[classes: plain 1-3 Einsum specs; spatial (single Einsum, Container fanout with ==1 / <= / product<= / >= / ==n / product>= "
+        "loop_bounds, lower bounds below a small buffer); persistent tensors incl. one read by two Einsums; shrinking chains "
+        "(buffer fits the last Einsum only). An InvalidMappingError of the final evaluation = a selected mapping is invalid] "
+        "specs of the small-spec family with tight memories, keep / may_keep set expressions (incl. ~MainMemory, "
         "Inputs, Outputs), 1-3 Einsums, max_fused_loops in {0,1,2,inf}, max_fused_loops_per_rank_variable in {1,2}, "
         "metric sets incl. RESOURCE_USAGE, tolerances 0; every row returned by map_workload_to_arch is rebuilt from "
         "user-facing fields and checked by a validator written against the spec: one Compute per Einsum, every rank "
